@@ -10,7 +10,10 @@ The model is a plain JSON-able dict (``spec``) so that a case can be written int
     message_id       "<...>"
     plain / html     str | None        (lines separated by "\\n")
     body             {"plain": [charset, cte], "html": [charset, cte]}
-    atts             [{"filename", "ctype", "data" (bytes), "cte", "disp": "attachment"|"inline", "kind"}]
+    atts             [{"filename" ("" = the part carries no filename / name parameter), "ctype" (declared type - need not
+                       be the canonical one of the file name's extension), "data" (bytes), "cte",
+                       "disp": "attachment"|"inline"|"none" (no Content-Disposition header at all: a message
+                       forwarded inline), "kind"}]
     hdr              {"mode": "stdlib"|"hand", "policy": "SMTP"|"default", ...hand options...}
     features         sorted list of feature tags (what makes the case distinct)
 
@@ -318,7 +321,7 @@ def _pol(spec):
 
 def _add_att(target: EmailMessage, a: dict, pol, related: bool):
     add = target.add_related if related else target.add_attachment
-    kw = {"filename": a["filename"]}
+    kw = {"filename": a["filename"] or None}            # None: no filename parameter is written
     if a.get("cid"):
         kw["cid"] = a["cid"]
     if a["disp"] == "inline":
@@ -326,9 +329,11 @@ def _add_att(target: EmailMessage, a: dict, pol, related: bool):
     if a["kind"] == "eml":
         inner = build_message(a["inner"], pol_override=pol)
         add(inner, **kw)
-        return
-    main, sub = a["ctype"].split("/", 1)
-    add(a["data"], maintype=main, subtype=sub, cte=a.get("cte", "base64"), **kw)
+    else:
+        main, sub = a["ctype"].split("/", 1)
+        add(a["data"], maintype=main, subtype=sub, cte=a.get("cte", "base64"), **kw)
+    if a["disp"] == "none":                              # what email.mime.message.MIMEMessage writes: no disposition at all
+        del target.get_payload()[-1]["Content-Disposition"]
 
 
 def build_message(spec: dict, pol_override=None, with_headers: bool | None = None) -> EmailMessage:
@@ -704,7 +709,7 @@ def random_spec(rng, tok, fx: dict, *, allow=None, depth: int = 0) -> dict:
     spec["hdr"] = hdr
 
     # ---- bodies
-    shape = rng.choice(["plain", "plain", "html", "alt", "alt", "alt"])
+    shape = rng.choice(allow.get("shapes") or ["plain", "plain", "html", "alt", "alt", "alt"])
     fromlike = rng.random() < 0.3 and allow.get("fromlike", True)
     if fromlike:
         feats.append("body:fromlike-lines")
@@ -743,10 +748,11 @@ def random_spec(rng, tok, fx: dict, *, allow=None, depth: int = 0) -> dict:
                      "cid": f"<{cid if i == 0 else tok('c') + '@cid.example.com'}>",
                      "data": PNG_SIG + bytes(rng.randrange(256) for _ in range(rng.randrange(20, 200)))})
     kinds = [k for k in ("txt", "csv", "html", "docx", "pdf", "xlsx", "txt-8bit", "txt-qp", "bin") if allow.get("att:" + k, True)]
+    odd = [k for k in MISMATCHED if allow.get("att:" + k, True)]
     natt = rng.choice([0, 0, 0, 1, 1, 2, 3, 4]) if depth == 0 else 0
     natt = min(natt, allow.get("max_atts", 4))
     for _ in range(natt):
-        k = rng.choice(kinds)
+        k = rng.choice(odd) if odd and rng.random() < 0.15 else rng.choice(kinds)     # about one in seven is typed otherwise than it is named
         a = make_attachment(rng, tok, k, fx)
         if a["cte"] in ("7bit", "8bit") and pol == "SMTP":
             a["data"] = a["data"].replace(b"\n", b"\r\n")      # on the wire a 7bit/8bit text part *is* CRLF-terminated
@@ -754,7 +760,17 @@ def random_spec(rng, tok, fx: dict, *, allow=None, depth: int = 0) -> dict:
             # many mail clients put a Content-ID on every part; a real attachment (Content-Disposition: attachment) stays one
             a["cid"] = f"<{tok('c')}@att.example.com>"
             feats.append("att:content-id")
+        if k not in MISMATCHED and allow.get("nameless", True) and rng.random() < 0.06:
+            a["filename"] = ""                            # no filename / name parameter: the declared type is all a reader has
+            feats.append("att:nameless")
         atts.append(a)
+    if fx.get("enc") and depth == 0 and allow.get("encrypted", True) and rng.random() < 0.04 and len(atts) - inline_n < allow.get("max_atts", 4):
+        # a password-protected document among the attachments: the attachment iterator reports it (file-encrypted error)
+        name, data, ctype, ext = rng.choice(fx["enc"])
+        atts.insert(rng.randrange(inline_n, len(atts) + 1), {"filename": f"{tok('f')}.{ext}", "ctype": ctype, "kind": "enc", "disp": "attachment", "cte": "base64",
+                                                             "data": data, "fixture": name})
+        natt += 1
+        feats.append("att:encrypted:" + ext)
     if inline_n:
         feats.append(f"struct:related:{inline_n}")
     spec["atts"] = atts
@@ -762,12 +778,33 @@ def random_spec(rng, tok, fx: dict, *, allow=None, depth: int = 0) -> dict:
     nest = shape + ("+related" if inline_n else "") + ("+mixed" if natt or spec["wrap_mixed"] else "")
     feats.append("struct:" + nest)
     feats.append(f"att:n={natt}")
-    feats += sorted({f"att:{a['kind']}:{a['cte']}" for a in atts if a["disp"] != "inline"})
+    feats += sorted({f"att:{a['kind']}:{a['cte']}" for a in atts if a["disp"] != "inline"} | {"att:mismatch:" + a["mismatch"] for a in atts if a.get("mismatch")})
     spec["features"] = sorted(set(feats))
     return spec
 
 
+# Attachments whose declared type is a supported one but not the canonical type of the file name's extension (all seen
+# in the wild: Outlook sends .csv as application/vnd.ms-excel, web mailers send Office files as application/zip or with
+# the legacy type, anything textual as text/plain).  The file "on its own" is routed by its name (README: "extension
+# (primary), MIME type (fallback)"), so the attachment must be, too.
+MISMATCHED = {
+    "csv-as-xls": ("csv", "application/vnd.ms-excel"),
+    "xlsx-as-xls": ("xlsx", "application/vnd.ms-excel"),
+    "docx-as-zip": ("docx", "application/zip"),
+    "docx-as-doc": ("docx", "application/msword"),
+    "html-as-txt": ("html", "text/plain"),
+    "pdf-as-txt": ("pdf", "text/plain"),
+    "csv-as-json": ("csv", "application/json"),
+}
+
+
 def make_attachment(rng, tok, kind: str, fx: dict) -> dict:
+    if kind in MISMATCHED:
+        base, ctype = MISMATCHED[kind]
+        a = make_attachment(rng, tok, base, fx)
+        while "." not in a["filename"]:                 # the name must say what the file is
+            a = make_attachment(rng, tok, base, fx)
+        return dict(a, ctype=ctype, cte="base64", mismatch=kind)
     cs = rng.choice(["utf-8", "utf-8", "us-ascii"])
     sample = rng.choice(SAMPLES[cs])
     fname_tok = tok("f")
@@ -800,9 +837,12 @@ def make_attachment(rng, tok, kind: str, fx: dict) -> dict:
             "fixture": name}
 
 
-def nested_eml_attachment(rng, tok, fx: dict, pol: str) -> dict:
-    """A message/rfc822 attachment whose inner message is a small plain-text message with short ASCII headers
-    (nothing a re-serialising reader could legitimately re-fold)."""
+def nested_eml_attachment(rng, tok, fx: dict, pol: str, disp: str = "attachment", nameless: bool = False, lines: int | None = None) -> dict:
+    """A message/rfc822 part whose inner message is a small plain-text message with short ASCII headers (nothing a
+    re-serialising reader could legitimately re-fold).  ``disp``: "attachment" (forwarded as attachment) or "none"
+    (forwarded inline: no Content-Disposition header, no file name - it is not an attachment, and its text is not the
+    carrier's body either); ``nameless``: an attachment without filename parameter (what most clients write for an
+    attached message); ``lines``: body length, so that several attached messages of one carrier differ in size."""
     inner = random_spec(rng, tok, fx, depth=1, allow={"hand": False, "related": False, "group": False})
     inner["hdr"] = {"mode": "stdlib", "policy": pol, "extra": []}
     inner["subject"] = f"{tok('s')} inner {tok('s')}"
@@ -811,7 +851,7 @@ def nested_eml_attachment(rng, tok, fx: dict, pol: str) -> dict:
     inner["cc"] = inner["bcc"] = inner["reply_to"] = []
     inner["html"] = None
     inner["body"] = {"plain": ["us-ascii", "7bit"]}
-    inner["plain"] = f"{tok('a')} inner body\n{tok('a')}\n"
+    inner["plain"] = f"{tok('a')} inner body\n" + "".join(f"{tok('a')} line {i} of the inner message\n" for i in range(lines if lines is not None else rng.choice([0, 0, 1, 3, 8, 20]))) + f"{tok('a')}\n"
     inner["atts"] = []
     inner["wrap_mixed"] = False
     long_hdr = rng.random() < 0.5
@@ -819,7 +859,7 @@ def nested_eml_attachment(rng, tok, fx: dict, pol: str) -> dict:
     # re-serialises the attached message instead of returning its bytes writes "Message-ID: " CRLF SP "<...>"
     inner["message_id"] = (f"<{tok('i')}-" + "0123456789-" * 3 + "@long.host.name.example.com>") if long_hdr else f"<{tok('i')}@in.example.com>"
     inner["features"] = ["inner", "inner:long-header" if long_hdr else "inner:short-headers"]
-    return {"filename": f"{tok('f')}.eml", "ctype": "message/rfc822", "kind": "eml", "disp": "attachment", "cte": "8bit",
+    return {"filename": "" if nameless or disp == "none" else f"{tok('f')}.eml", "ctype": "message/rfc822", "kind": "eml", "disp": disp, "cte": "8bit",
             "inner": inner, "data": b""}
 
 
@@ -922,14 +962,14 @@ def header_probe(spec: dict) -> bytes:
     return _flatten(m, pol)
 
 
-def wire_features(spec: dict) -> list[str]:
+def wire_features(spec: dict, probe: bytes | None = None) -> list[str]:
     """Header features that only the rendered bytes show (the stdlib writer folds where it likes):
     plain-folded-subject            the Subject is folded and holds no encoded-word
     message-id-on-continuation-line the Message-ID value starts on a continuation line ("Message-ID:" CRLF SP "<id>")
     fold-at-encoded-word            the Subject is folded between an encoded-word and ordinary text
     fold-in-white-space-run         the Subject is folded inside or next to a run of white space (more than the one
                                     continuation character after the line break, or white space before it)"""
-    raw = header_probe(spec)
+    raw = probe if probe is not None else header_probe(spec)
     out = []
     v = (raw_header_value(raw, "Subject") or "").rstrip("\r\n")
     if re.search(r"\r?\n[ \t]", v) and "=?" not in v:
@@ -993,7 +1033,7 @@ def to_hand_mode(spec: dict) -> None:
 
 # ----------------------------------------------------------------------------- JSON (replay) form
 def spec_to_json(spec: dict) -> dict:
-    s = copy.deepcopy(spec)
+    s = {k: v for k, v in copy.deepcopy(spec).items() if not k.startswith("_")}      # "_..." keys: derived caches of the check
     for a in s.get("atts", []):
         a["data"] = {"_b64": base64.b64encode(a["data"]).decode("ascii")}
         if "inner" in a:
